@@ -1,8 +1,15 @@
 """C18 check configuration (see lib/props.py for the field meanings)."""
 
 PROP = {
-    "pkg": "internal/schedule",
-    "files": ["schedule/c18_test.go"],
+    "parts": [
+        {"name": "schedule", "pkg": "internal/schedule", "files": ["schedule/c18_test.go"],
+         "tests": [("TestVFC18Contains", (4000, 40000)), ("TestVFC18FullAndEmptyDay", (300, 2500)),
+                   ("TestVFC18RoundTrip", (3000, 20000)), ("TestVFC18Validation", (5000, 40000))],
+         "plain": ["TestVFC18Regress"]},
+        {"name": "services", "pkg": "internal/dnsforward",
+         "files": ["dnsforward/common_world_test.go", "dnsforward/c01_test.go", "dnsforward/c18_services_test.go"],
+         "tests": [("TestVFC18ServicesPause", (400, 1500))], "shards": (2, 16)},
+    ],
     "level": "exploration",
     "technique": "property-based testing (rapid) against a wall-clock reference model; round-trip and validity oracles",
     "level_text": "Generated (zone, schedule, instant) cases over all IANA zones of the Go tzdata with instants "
@@ -12,13 +19,6 @@ PROP = {
                   "input space that matters (transition days x edge instants) is covered densely.",
     "level_note": "Trusts Go's time package/tzdata, encoding/json and yaml.v3. ApplyBlockedServices' use of the "
                   "schedule is exercised in C01 only for clock-free schedules.",
-    "tests": [
-        ("TestVFC18Contains", (4000, 40000)),
-        ("TestVFC18FullAndEmptyDay", (300, 2500)),
-        ("TestVFC18RoundTrip", (3000, 20000)),
-        ("TestVFC18Validation", (5000, 40000)),
-    ],
-    "plain": ["TestVFC18Regress"],
     "shards": (1, 16),
     "workers": (4, 16),
     "rule": "Cases: (IANA zone, weekly schedule in whole minutes, instant) with instants drawn uniformly, "
